@@ -612,20 +612,42 @@ func maybeJunk(t *rapid.T, c *callCase, arity int) {
 	}
 }
 
-func genCallCommon(t *rapid.T, methods []string, maxLen int) (callCase, []uint16) {
-	c := callCase{Method: rapid.SampledFrom(methods).Draw(t, "method"), Args: []val{}}
-	c.Recv = genRecv(t, genUnits(maxLen).Draw(t, "s"))
+// genCallCommon draws method, receiver and call form. One case in six is an "image" case: the
+// receiver's string contains the ToString image of an odd argument value (returned as img), which
+// the facets then pass explicitly in the string-role position.
+func genCallCommon(t *rapid.T, methods []string, maxLen int) (c callCase, s []uint16, img *val) {
+	c = callCase{Method: rapid.SampledFrom(methods).Draw(t, "method"), Args: []val{}}
+	var base []uint16
+	if rapid.IntRange(0, 5).Draw(t, "image") == 0 {
+		b, v := genImageString(t)
+		base, img = b, &v
+	} else {
+		base = genUnits(maxLen).Draw(t, "s")
+	}
+	c.Recv = genRecv(t, base)
 	c.Via = genVia(t, c.Recv)
-	return c, recvString(c.Recv)
+	return c, recvString(c.Recv), img
+}
+
+// padUndefined passes `undefined` explicitly at optional positions that were left out (one case in
+// eight): ES5 treats an explicit undefined like an omitted argument almost everywhere, and never as
+// the text "undefined" where the clause says "if x is undefined".
+func padUndefined(t *rapid.T, c *callCase, arity int) {
+	if len(c.Args) < arity && rapid.IntRange(0, 7).Draw(t, "pad-undef") == 0 {
+		n := rapid.IntRange(len(c.Args)+1, arity).Draw(t, "pad-to")
+		for len(c.Args) < n {
+			c.Args = append(c.Args, vUndef())
+		}
+	}
 }
 
 var accessFacet = harness.Register(&harness.Facet[callCase]{
 	Name:     "charAt-charCodeAt",
-	Rule:     "rapid: charAt/charCodeAt; receiver string ≤12 units over ASCII/Latin-1/BMP/astral alphabets (one third over a 6-letter alphabet), wrapped as primitive, String object (plain or with own toString), number, boolean, array, objects with logging toString/valueOf (incl. throwing and non-primitive-returning ones), undefined, null; called directly, through call/apply, as an installed property, or with this=undefined; 0–1 position arguments from the odd pool (±(length±1), fractions, NaN, ±Infinity, -0, 2^31, 2^32, 2^53, 2^63, 1e300, undefined, null, booleans, numeric strings, objects with valueOf/toString, arrays) plus an occasional surplus argument that must not be converted; oracle: lib/m09 (15.5.4.4-5) on code units, conversion trace and exception class; non-trivial = non-ASCII string, or position not an in-range non-negative integer literal, or receiver not a primitive string; distinct by (method, via, receiver, arguments)",
+	Rule:     "rapid: charAt/charCodeAt; receiver string ≤12 units over ASCII/Latin-1/BMP/astral alphabets (one third over a 6-letter alphabet; one case in six an image receiver: a string containing the ToString image \"undefined\", \"null\", \"NaN\", \"0\", \"[object Object]\", \"true\", \"1,2\"… of an odd argument value, that value then passed explicitly in the string-role position; one case in eight passes undefined explicitly at the optional positions left out), wrapped as primitive, String object (plain or with own toString), number, boolean, array, objects with logging toString/valueOf (incl. throwing and non-primitive-returning ones), undefined, null; called directly, through call/apply, as an installed property, or with this=undefined; 0–1 position arguments from the odd pool (±(length±1), fractions, NaN, ±Infinity, -0, 2^31, 2^32, 2^53, 2^63, 1e300, undefined, null, booleans, numeric strings, objects with valueOf/toString, arrays) plus an occasional surplus argument that must not be converted; oracle: lib/m09 (15.5.4.4-5) on code units, conversion trace and exception class; non-trivial = non-ASCII string, or position not an in-range non-negative integer literal, or receiver not a primitive string; distinct by (method, via, receiver, arguments)",
 	Quick:    12000,
 	Thorough: 40000,
 	Gen: func(t *rapid.T) callCase {
-		c, s := genCallCommon(t, []string{"charAt", "charCodeAt"}, 12)
+		c, s, _ := genCallCommon(t, []string{"charAt", "charCodeAt"}, 12)
 		if known(kCharAtRecv) && !(c.Recv.K == "sobj" || (c.Recv.K == "str" && c.Via == "direct")) && c.Recv.K != "null" && c.Recv.K != "undef" &&
 			rapid.IntRange(0, 9).Draw(t, "steer") < 8 {
 			// while finding C09-CHARAT-RECEIVER stands every other receiver is a crash: keep most of the
@@ -638,6 +660,7 @@ var accessFacet = harness.Register(&harness.Facet[callCase]{
 		if rapid.IntRange(0, 9).Draw(t, "nargs") > 0 {
 			c.Args = append(c.Args, genPos(t, len(s), "pos"))
 		}
+		padUndefined(t, &c, 1)
 		maybeJunk(t, &c, 1)
 		return c
 	},
@@ -652,8 +675,18 @@ var searchFacet = harness.Register(&harness.Facet[callCase]{
 	Quick:    18000,
 	Thorough: 55000,
 	Gen: func(t *rapid.T) callCase {
-		c, s := genCallCommon(t, []string{"indexOf", "lastIndexOf"}, 12)
+		c, s, img := genCallCommon(t, []string{"indexOf", "lastIndexOf"}, 12)
 		if rapid.IntRange(0, 19).Draw(t, "noargs") == 0 {
+			padUndefined(t, &c, 2)
+			return c
+		}
+		if img != nil && rapid.IntRange(0, 3).Draw(t, "use-image") > 0 {
+			c.Args = append(c.Args, *img)
+			if rapid.Bool().Draw(t, "image-pos") {
+				c.Args = append(c.Args, genPos(t, len(s), "pos"))
+			}
+			padUndefined(t, &c, 2)
+			maybeJunk(t, &c, 2)
 			return c
 		}
 		var search []uint16
@@ -673,6 +706,7 @@ var searchFacet = harness.Register(&harness.Facet[callCase]{
 		if rapid.IntRange(0, 9).Draw(t, "withpos") < 7 {
 			c.Args = append(c.Args, genPos(t, len(s), "pos"))
 		}
+		padUndefined(t, &c, 2)
 		maybeJunk(t, &c, 2)
 		return c
 	},
@@ -687,11 +721,12 @@ var extractFacet = harness.Register(&harness.Facet[callCase]{
 	Quick:    18000,
 	Thorough: 55000,
 	Gen: func(t *rapid.T) callCase {
-		c, s := genCallCommon(t, []string{"slice", "substring", "substr"}, 12)
+		c, s, _ := genCallCommon(t, []string{"slice", "substring", "substr"}, 12)
 		n := rapid.SampledFrom([]int{0, 1, 1, 2, 2, 2, 2}).Draw(t, "nargs")
 		for i := 0; i < n; i++ {
 			c.Args = append(c.Args, genPos(t, len(s), fmt.Sprintf("p%d", i)))
 		}
+		padUndefined(t, &c, 2)
 		maybeJunk(t, &c, 2)
 		return c
 	},
@@ -722,15 +757,30 @@ var splitFacet = harness.Register(&harness.Facet[callCase]{
 	Quick:    18000,
 	Thorough: 55000,
 	Gen: func(t *rapid.T) callCase {
-		c, s := genCallCommon(t, []string{"split", "split", "split", "concat"}, 12)
+		c, s, img := genCallCommon(t, []string{"split", "split", "split", "concat"}, 12)
 		if c.Method == "concat" {
 			n := rapid.IntRange(0, 4).Draw(t, "nargs")
 			for i := 0; i < n; i++ {
+				if img != nil && rapid.IntRange(0, 2).Draw(t, "concat-image") == 0 {
+					c.Args = append(c.Args, rapid.SampledFrom(imageVals).Draw(t, "concat-image-val"))
+					continue
+				}
 				c.Args = append(c.Args, genStringy(t, nil, fmt.Sprintf("c%d", i)))
 			}
 			return c
 		}
 		if rapid.IntRange(0, 11).Draw(t, "nosep") == 0 {
+			padUndefined(t, &c, 2)
+			return c
+		}
+		if img != nil && rapid.IntRange(0, 3).Draw(t, "use-image") > 0 {
+			// the separator is the very value whose text the receiver contains (explicit undefined included)
+			c.Args = append(c.Args, *img)
+			if rapid.Bool().Draw(t, "withlimit") {
+				c.Args = append(c.Args, genLimit(t, len(s)))
+			}
+			padUndefined(t, &c, 2)
+			maybeJunk(t, &c, 2)
 			return c
 		}
 		var sep []uint16
@@ -748,6 +798,7 @@ var splitFacet = harness.Register(&harness.Facet[callCase]{
 		if rapid.Bool().Draw(t, "withlimit") {
 			c.Args = append(c.Args, genLimit(t, len(s)))
 		}
+		padUndefined(t, &c, 2)
 		maybeJunk(t, &c, 2)
 		return c
 	},
@@ -767,9 +818,27 @@ var caseTrimFacet = harness.Register(&harness.Facet[callCase]{
 		if c.Method == "trim" {
 			s = padWS(t, s)
 		}
+		var img *val
+		if c.Method == "localeCompare" && rapid.IntRange(0, 4).Draw(t, "image") == 0 {
+			// receiver = exactly the text of an odd argument value (or a string containing it): the
+			// comparison with that value must be 0 (resp. non-zero); localeCompare() compares with "undefined"
+			v := rapid.SampledFrom(imageVals).Draw(t, "image-val")
+			img = &v
+			s = (&conv{}).toString(v, "i")
+			if rapid.IntRange(0, 2).Draw(t, "image-longer") == 0 {
+				s = append(append([]uint16{}, s...), genUnits(2).Draw(t, "image-tail")...)
+			}
+		}
 		c.Recv = genRecv(t, s)
 		c.Via = genVia(t, c.Recv)
 		if c.Method == "localeCompare" {
+			if img != nil {
+				if img.K != "undef" || rapid.Bool().Draw(t, "image-explicit") {
+					c.Args = append(c.Args, *img)
+				}
+				maybeJunk(t, &c, 1)
+				return c
+			}
 			if rapid.IntRange(0, 9).Draw(t, "nargs") > 0 {
 				that := genUnits(10).Draw(t, "that")
 				if rapid.IntRange(0, 3).Draw(t, "same") == 0 {
@@ -780,6 +849,7 @@ var caseTrimFacet = harness.Register(&harness.Facet[callCase]{
 				}
 				c.Args = append(c.Args, genStringy(t, that, "that"))
 			}
+			padUndefined(t, &c, 1)
 			maybeJunk(t, &c, 1)
 		} else {
 			maybeJunk(t, &c, 0)
